@@ -321,6 +321,36 @@ def reject(F, R, cg):
     R.ob('C02.reject', 'decoders|no-transmute-or-unchecked-constructors', not bad, 'unchecked conversions reachable from the decoders: %s' % bad[:4])
     pos = [b.path for b in F.bodies.values() if any(True for _ in b.calls_to(r'from_bytes_unchecked$'))]
     R.ob('C02.reject', 'positive-example|from_bytes_unchecked exists outside the decoders', bool(pos) and not any(p in cg for p in pos), 'the zero-count rule above is kept honest by %s' % pos[:2])
+    # identifiers that must not be 0 on the wire (packet ids, subscription ids): a NonZero built from decoded bytes
+    # has its zero case turned into an error (`.ok_or(..)`), it is never kept as a silent `None`
+    nz = 0
+    for p in cg:
+        b = F.bodies[p]
+        for bi, t in b.calls_to(r'^std::num::NonZero::<u(16|32)>::new$|^core::num::nonzero::NonZero::<u(16|32)>::new$|NonZero::<T>::new$|NonZeroU(16|32)::new$'):
+            a0 = t['args'][0] if t['args'] else None
+            if a0 is None or op_const(a0) is not None:
+                continue  # constant
+            nz += 1
+            dl = t['dest']['l']
+            used_ok = False
+            for xb, xt in b.calls():
+                nm = callee_name(xt) or ''
+                if re.search(r'Option::<T>::(ok_or|ok_or_else|expect|unwrap)$', nm) and xt['args']:
+                    pl = op_place(xt['args'][0])
+                    if pl is not None and (pl['l'] == dl or any(l_[0] == 'call' and l_[2] == bi for l_ in Origin(b).of_operand(xt['args'][0]))):
+                        used_ok = True
+            if not used_ok:
+                # `match NonZero::new(v) { Some(x) => .., None => return Err(..) }`
+                r = discr_switch_after_call(b, bi)
+                if r:
+                    sb_, tg, oth = r
+                    none_t = tg.get(0, oth)
+                    some_t = tg.get(1, oth)
+                    reg = b.reachable(none_t, avoid=[some_t])
+                    used_ok = any(x in reg for x, j, s_ in agg_sites(b, r'^std::result::Result$', 'Err')) and not any(x in reg for x, j, s_ in agg_sites(b, r'^std::result::Result$', 'Ok'))
+            R.ob('C02.reject', '%s|NonZero::new|zero=>Err' % p, used_ok,
+                 'a wire value that must not be 0 (packet identifier / subscription identifier) is turned into Option by NonZero::new without mapping 0 to an error: the malformed packet is accepted with the field silently absent', b.loc(bi))
+    R.floor('C02.reject', 'NonZero constructions from decoded values', nz, 1)
     # enums decoded through TryFrom<u8>: otherwise arm is Err
     n = 0
     for b in F.find(r'^<(types::QoS|v[35]::codec::packet::.*(Reason|ReasonCode|RetainHandling)) as std::convert::TryFrom<u8>>::try_from$'):
